@@ -353,6 +353,15 @@ CommitClausesW(s, e, t, connS, connT) ==
             /\ l.ents[1].author = co.author.name \o "%20<" \o co.author.email \o ">"
             /\ l.ents[1].dok /\ l.ents[1].secs = co.author.secs /\ l.ents[1].off = co.author.off
             /\ l.ents[1].msg = co.msg),
+    (* every listed commit, not only the newest, is shown with its own instant and offset *)
+    Cl("C12_LogAll", {"C12"}, HasObs(t, "log") /\ connT /\ HeadHasCommit(T),
+        HasObs(t, "log") /\ connT /\ HeadHasCommit(T) =>
+            \A key \in DOMAIN t.obs.log :
+                \A i \in 1..Len(t.obs.log[key].ents) :
+                    LET en == t.obs.log[key].ents[i] IN
+                    (IsCommit(T, en.id) /\ Obj(T, en.id).author.ok) =>
+                        /\ en.dok /\ en.secs = Obj(T, en.id).author.secs /\ en.off = Obj(T, en.id).author.off
+                        /\ en.author = Obj(T, en.id).author.name \o "%20<" \o Obj(T, en.id).author.email \o ">"),
     Cl("C20_Gate", {"C20"}, isC /\ ~IdentitySet(S),
         isC /\ ~IdentitySet(S) => Refused(e) /\ Unchanged(s, t))
     >>
